@@ -64,7 +64,8 @@ structure WIDP where
   deriving DecidableEq, Repr
 
 def WID.toProto (f : WID) : WIDP := ⟨f.type.toProto, f.ns, f.value⟩
-/-- `NewFeatureIDFromProto`; `none` = panic on an unknown enum number -/
+/-- `NewFeatureIDFromProto`; an unknown enum number reads as the invalid type (fixes/C23-feature-type-from-proto.patch),
+so this is never `none`; the `panic` branches below that depend on it are kept for the shape of the code only -/
 def WIDP.fromProto (p : WIDP) : Option WID := (ftypeFromProto p.enum).map fun t => ⟨t, p.ns, p.value⟩
 
 /-- the value of a `Tag` / `Tagged`: a string expression, or any other expression (only its
@@ -387,7 +388,7 @@ def LitP.fromProto (cv : Nat → Nat) : LitP → R Any
   | .areaV m => .ok (.area m)
   | .queryV q => (q.fromProto cv).bind fun q' => .ok (.query q')
   | .nilV => .ok .absent            -- `NilExpressionFromProto` returns `Expression{}`
-  | .geojsonV _ => .panic           -- `panic("Unimplemented")`
+  | .geojsonV _ => .err             -- `Can't import GeoJSON from protos` (fixes/C23-geojson-literal-from-proto.patch; was `panic("Unimplemented")`)
   | .routeV r =>
     match r.fromProto with
     | some r' => .ok (.route r')
